@@ -389,3 +389,50 @@ package pokerface
 //@   modifies @ACTION
 //@   allocs Action, elems(string), elems(Player)
 //@   ensures [C04] err == ErrInvalidAction && UNCH()
+
+// ---------------------------------------------------------------------------
+// game_state.go: views (C15)
+// ---------------------------------------------------------------------------
+
+//@ pred WFGS(gs) = gs != nil && (forall i :: 0 <= i && i < len(gs.Players) ==> gs.Players[i] != nil)
+//@    && (forall i, j :: 0 <= i && i < j && j < len(gs.Players) ==> gs.Players[i] != gs.Players[j])
+
+//@ func (*GameState).AsPlayer(gs, idx)
+//@   props C15
+//@   requires WFGS(gs)
+//@   modifies gs.Meta.Deck, gs.Status.Burned, PlayerState.HoleCards, PlayerState.Combination
+//@   allocs elems(string)
+//@   ensures [C15] len(gs.Meta.Deck) == 0 && len(gs.Status.Burned) == 0
+//@   ensures [C15] forall i :: 0 <= i && i < len(gs.Players) && gs.Players[i].Idx != idx
+//@             && (gs.Status.CurrentEvent != "GameClosed" || gs.Players[i].Fold)
+//@             ==> len(gs.Players[i].HoleCards) == 0 && gs.Players[i].Combination == nil
+//@   ensures [C15] forall i :: 0 <= i && i < len(gs.Players)
+//@             && !(gs.Players[i].Idx != idx && (gs.Status.CurrentEvent != "GameClosed" || gs.Players[i].Fold))
+//@             ==> gs.Players[i].HoleCards == old(gs.Players[i].HoleCards) && gs.Players[i].Combination == old(gs.Players[i].Combination)
+//@   loop 1 invariant forall k :: 0 <= k && k <= rangeindex && gs.Players[k].Idx != idx && gs.Players[k].Fold
+//@             ==> len(gs.Players[k].HoleCards) == 0 && gs.Players[k].Combination == nil
+//@   loop 1 invariant forall q *PlayerState :: (forall k :: 0 <= k && k <= rangeindex ==> gs.Players[k] != q) || q.Idx == idx || !q.Fold
+//@             ==> q.HoleCards == old(q.HoleCards) && q.Combination == old(q.Combination)
+//@   loop 2 invariant forall k :: 0 <= k && k <= rangeindex && gs.Players[k].Idx != idx
+//@             ==> len(gs.Players[k].HoleCards) == 0 && gs.Players[k].Combination == nil
+//@   loop 2 invariant forall q *PlayerState :: (forall k :: 0 <= k && k <= rangeindex ==> gs.Players[k] != q) || q.Idx == idx
+//@             ==> q.HoleCards == old(q.HoleCards) && q.Combination == old(q.Combination)
+
+//@ func (*GameState).AsObserver(gs)
+//@   props C15
+//@   requires WFGS(gs)
+//@   modifies gs.Meta.Deck, gs.Status.Burned, PlayerState.HoleCards, PlayerState.Combination
+//@   allocs elems(string)
+//@   ensures [C15] len(gs.Meta.Deck) == 0 && len(gs.Status.Burned) == 0
+//@   ensures [C15] forall i :: 0 <= i && i < len(gs.Players) && (gs.Status.CurrentEvent != "GameClosed" || gs.Players[i].Fold)
+//@             ==> len(gs.Players[i].HoleCards) == 0 && gs.Players[i].Combination == nil
+//@   ensures [C15] forall i :: 0 <= i && i < len(gs.Players) && !(gs.Status.CurrentEvent != "GameClosed" || gs.Players[i].Fold)
+//@             ==> gs.Players[i].HoleCards == old(gs.Players[i].HoleCards) && gs.Players[i].Combination == old(gs.Players[i].Combination)
+//@   loop 1 invariant forall k :: 0 <= k && k <= rangeindex && gs.Players[k].Fold
+//@             ==> len(gs.Players[k].HoleCards) == 0 && gs.Players[k].Combination == nil
+//@   loop 1 invariant forall q *PlayerState :: (forall k :: 0 <= k && k <= rangeindex ==> gs.Players[k] != q) || !q.Fold
+//@             ==> q.HoleCards == old(q.HoleCards) && q.Combination == old(q.Combination)
+//@   loop 2 invariant forall k :: 0 <= k && k <= rangeindex
+//@             ==> len(gs.Players[k].HoleCards) == 0 && gs.Players[k].Combination == nil
+//@   loop 2 invariant forall q *PlayerState :: (forall k :: 0 <= k && k <= rangeindex ==> gs.Players[k] != q)
+//@             ==> q.HoleCards == old(q.HoleCards) && q.Combination == old(q.Combination)
